@@ -431,6 +431,7 @@ def r11_1_calltime_writes(ctx, rid='R11.1', modules=None, floor=5):
                            'instance, across calls, functions and threads' % (c.qual, name, norm(v), norm(n)[:50]))
                 else:
                     r.ok('%s.%s: mutable class attribute, %s' % (c.qual, name, 'never mutated in place' if not mutated else 'shadowed per instance in __init__'))
+    n_fobj = 0
     # the function objects themselves (LoadFunction, DumpsJsonFunction, ..): one object per load/dump function, shared by all its
     # calls and threads.  A field that __init__ fills with a freshly built mutable object (a buffer, a set, a dict) and that __call__
     # then uses is state between calls - whatever the cleanup looks like on the normal path, an exception or a second thread finds it
@@ -459,6 +460,11 @@ def r11_1_calltime_writes(ctx, rid='R11.1', modules=None, floor=5):
                        'what the last one left in it' % (c.qual, 'self.' + fld, norm(built[fld].value)[:40]))
             if not used:
                 r.ok('%s: __call__ uses no object that __init__ built (only the generated class)' % c.qual)
+            n_fobj += 1
+    if modules is None and n_fobj < 3:
+        # the pinned tree has six function-object classes (LoadFunction, DumpFunction, DumpsFunction, DumpJsonFunction,
+        # DumpsJsonFunction, ..); finding fewer than half of them means the clause no longer sees what it is about
+        raise AnalysisError('%s: only %d load/dump function-object classes (class *Function with __init__ and __call__) were found' % (rid, n_fobj))
     # fields mutated in place must be initialised per instance
     for ckey in ('yatiml.dumper:Dumper', 'yatiml.loader:Loader'):
         c = P.cls(ckey)
